@@ -44,6 +44,10 @@ Fixpoint span (p : N -> bool) (l : str) : str * str :=
 
 Record lst := Lst { inp : str; toks : list token; last : bool }.
 
+(* "the next rune is c": Some (what follows it) *)
+Definition hd_is (c : N) (l : str) : option str :=
+  match l with x :: r => if x =? c then Some r else None | [] => None end.
+
 Definition emit (k : tk) (v : str) (rest : str) (s : lst) : outcome lst :=
   if Nat.leb token_cap (length (toks s)) then Err EInvalid
   else Ok (Lst rest (Tok k v :: toks s) (last s)).
@@ -57,9 +61,9 @@ Fixpoint lex_field_path_loop (fuel : nat) (s : lst) : outcome lst :=
   match fuel with
   | O => OutOfFuel
   | S f =>
-    match inp s with
-    | 46 :: rest => do s1 <- emit TDot [46] rest s; do s2 <- lex_run TIdent is_ident s1; lex_field_path_loop f s2
-    | _ => Ok s
+    match hd_is 46 (inp s) with
+    | Some rest => do s1 <- emit TDot [46] rest s; do s2 <- lex_run TIdent is_ident s1; lex_field_path_loop f s2
+    | None => Ok s
     end
   end.
 Definition lex_field_path (fuel : nat) (s : lst) : outcome lst :=
@@ -72,9 +76,9 @@ Definition lex_segment (lexvar : option (lst -> outcome lst)) (s : lst) : outcom
   | r :: rest =>
     if isLetter r then lex_run TLiteral is_literal s
     else if r =? 42 then
-      match rest with
-      | 42 :: rest' => do s1 <- emit TStarStar [42; 42] rest' s; Ok (Lst (inp s1) (toks s1) true)
-      | _ => emit TStar [42] rest s
+      match hd_is 42 rest with
+      | Some rest' => do s1 <- emit TStarStar [42; 42] rest' s; Ok (Lst (inp s1) (toks s1) true)
+      | None => emit TStar [42] rest s
       end
     else if r =? 123 then
       match lexvar with Some lv => lv s | None => Err EInvalid end
@@ -86,32 +90,35 @@ Fixpoint lex_segments (fuel : nat) (lexvar : option (lst -> outcome lst)) (s : l
   | O => OutOfFuel
   | S f =>
     do s1 <- lex_segment lexvar s;
-    match inp s1 with
-    | 47 :: rest =>
+    match hd_is 47 (inp s1) with
+    | Some rest =>
       if last s1 then Err EInvalid
       else do s2 <- emit TSlash [47] rest s1; lex_segments f lexvar s2
-    | _ => Ok s1
+    | None => Ok s1
     end
   end.
 
 (* lexVariable; the input starts with '{' (lexSegment has looked at it) *)
 Definition lex_variable (fuel : nat) (s : lst) : outcome lst :=
-  match inp s with
-  | 123 :: rest =>
+  match hd_is 123 (inp s) with
+  | Some rest =>
     do s1 <- emit TVarStart [123] rest s;
     do s2 <- lex_field_path fuel s1;
-    match inp s2 with
-    | 61 :: rest2 =>
+    match hd_is 61 (inp s2) with
+    | Some rest2 =>
       do s3 <- emit TEqual [61] rest2 s2;
       do s4 <- lex_segments fuel None s3;
-      match inp s4 with
-      | 125 :: rest4 => emit TVarEnd [125] rest4 s4
-      | _ => Err EInvalid
+      match hd_is 125 (inp s4) with
+      | Some rest4 => emit TVarEnd [125] rest4 s4
+      | None => Err EInvalid
       end
-    | 125 :: rest2 => emit TVarEnd [125] rest2 s2
-    | _ => Err EInvalid
+    | None =>
+      match hd_is 125 (inp s2) with
+      | Some rest2 => emit TVarEnd [125] rest2 s2
+      | None => Err EInvalid
+      end
     end
-  | _ => Err EInvalid
+  | None => Err EInvalid
   end.
 
 Definition lex_verb (s : lst) : outcome lst :=
@@ -123,16 +130,15 @@ Definition lex_verb (s : lst) : outcome lst :=
 
 Definition lex_template_st (t : str) : outcome lst :=
   let fuel := S (length t) in
-  match t with
-  | 47 :: rest =>
+  match hd_is 47 t with
+  | Some rest =>
     do s1 <- emit TSlash [47] rest (Lst t [] false);
     do s2 <- lex_segments fuel (Some (lex_variable fuel)) s1;
-    match inp s2 with
-    | 58 :: rest2 => do s3 <- emit TVerb [58] rest2 s2; lex_verb s3
-    | [] => emit TEOF [] [] s2
-    | _ => Err EInvalid
+    match hd_is 58 (inp s2) with
+    | Some rest2 => do s3 <- emit TVerb [58] rest2 s2; lex_verb s3
+    | None => if is_nil (inp s2) then emit TEOF [] [] s2 else Err EInvalid
     end
-  | _ => Err EInvalid
+  | None => Err EInvalid
   end.
 Definition lex_template (t : str) : outcome (list token) :=
   do s <- lex_template_st t; Ok (rev (toks s)).
